@@ -475,6 +475,9 @@ func (cc *Conn) do(req *pool.Message) (*pool.Message, error) {
 
 // DoObserve subscribes for every change with request.
 func (cc *Conn) doObserve(req *pool.Message, observeFunc func(req *pool.Message)) (client.Observation, error) {
+	// The registration waits for its first response. When it is issued from a handler, that
+	// response can only be processed if the receive loop goes on meanwhile.
+	cc.receivedMessageReader.TryToReplaceLoop()
 	return cc.observationHandler.NewObservation(req, observeFunc)
 }
 
